@@ -176,6 +176,23 @@ Section JwtProofs.
   Proof. intros L cb cb' now now' p p' secret prev tok. rewrite !(jwt_iff L). reflexivity. Qed.
 End JwtProofs.
 
+(* route options through the engine: with WithJwtTransition(secret, prev) the handler runs iff the token
+   verifies under secret, or prev is non-empty and it verifies under prev -- whatever the length of prev *)
+Lemma engine_jwt_iff jwt_parse : lib_contract jwt_parse -> forall o secret prev now p tok,
+  jwt_setting o = Some (true, secret, prev) ->
+  j_ran (snd (engine_jwt_gate jwt_parse (true, secret, prev) now p tok)) = jwt_accept (jwt_ok jwt_parse) secret prev tok.
+Proof.
+  intros L o secret prev now p tok _. unfold engine_jwt_gate.
+  destruct (N.eqb_spec prev 0) as [->|E]; apply (jwt_iff jwt_parse L).
+Qed.
+
+Lemma jwt_setting_transition secret len prev prev_len :
+  8 <= len -> jwt_setting (JTransition secret len prev prev_len) = Some (true, secret, prev).
+Proof. intro H. unfold jwt_setting, validate_secret. apply Z.leb_le in H. rewrite H. reflexivity. Qed.
+
+Lemma jwt_setting_jwt secret len : 8 <= len -> jwt_setting (JJwt secret len) = Some (true, secret, 0%N).
+Proof. intro H. unfold jwt_setting, validate_secret. apply Z.leb_le in H. rewrite H. reflexivity. Qed.
+
 (* histories with a moving clock: the n-th decision of one middleware instance is the Spec's at the
    time of the n-th request, for every starting state -- earlier requests and verdicts do not matter *)
 Lemma jwt_history (jwt_at : Z -> N -> N -> jverdict) :
@@ -768,4 +785,43 @@ Lemma intercept_spec mode m strict cache store md :
 Proof.
   unfold intercept. destruct (authenticate strict cache store md) as [c code]. simpl.
   destruct (Z.eqb_spec code rpc_ok) as [->|E]; repeat split; auto; try discriminate; try (intro; contradiction).
+Qed.
+
+(* "not found" answers leave no trace: any number of calls for apps that are not cached and have no
+   stored token (healthy store) leave the cache as it was, each answered Internal (strict) / OK (lax) *)
+Fixpoint run_rpc_cache (strict : bool) (cache : list (N * N)) (steps : list ((N -> store_res) * rpc_md)) : list (N * N) :=
+  match steps with
+  | [] => cache
+  | (store, md) :: r => run_rpc_cache strict (fst (authenticate strict cache store md)) r
+  end.
+
+Lemma run_rpc_app strict : forall a b cache,
+  run_rpc strict cache (a ++ b) = run_rpc strict cache a ++ run_rpc strict (run_rpc_cache strict cache a) b.
+Proof.
+  induction a as [|[st md] a IH]; intros b cache; simpl; [reflexivity|].
+  destruct (authenticate strict cache st md) as [c code]. simpl. rewrite IH. reflexivity.
+Qed.
+
+Definition unknown_app_call (cache : list (N * N)) (sm : (N -> store_res) * rpc_md) : Prop :=
+  exists app tok, md_creds (snd sm) = Some (app, tok) /\ alookup N.eqb app cache = None /\ fst sm app = SNil.
+
+Lemma unknown_apps_harmless strict : forall steps cache,
+  (forall sm, In sm steps -> unknown_app_call cache sm) ->
+  run_rpc_cache strict cache steps = cache /\
+  run_rpc strict cache steps = map (fun _ => if strict then rpc_internal else rpc_ok) steps.
+Proof.
+  induction steps as [|[st md] r IH]; intros cache H; simpl; [auto|].
+  destruct (H (st, md) (or_introl eq_refl)) as [app [tok [Hc [Hl Hs]]]]. simpl in *.
+  destruct (rpc_table strict cache st) as [_ T2]. specialize (T2 md app tok Hc). rewrite Hl, Hs in T2.
+  rewrite T2. simpl. destruct (IH cache) as [I1 I2]; [intros sm Hin; apply H; right; assumption|].
+  rewrite I1, I2. auto.
+Qed.
+
+(* ... so later verdicts are what they would have been without those calls *)
+Lemma unknown_apps_no_effect strict steps later cache :
+  (forall sm, In sm steps -> unknown_app_call cache sm) ->
+  run_rpc strict cache (steps ++ later) =
+  map (fun _ => if strict then rpc_internal else rpc_ok) steps ++ run_rpc strict cache later.
+Proof.
+  intro H. rewrite run_rpc_app. destruct (unknown_apps_harmless strict steps cache H) as [-> ->]. reflexivity.
 Qed.
